@@ -1,4 +1,4 @@
-\* devNoBackEdge2
+\* negative control: must violate Inv_W4
 SPECIFICATION Spec
 CONSTANTS
   Cand <- Cand3
